@@ -34,19 +34,25 @@ async def debounced_sorted_prefix(
     debouncer = Debouncer(debounce_seconds, max_window_seconds)
     merged = merge_generators(inner, debouncer.aiter())
 
+    flushed = False
     async for item in merged:
         if item == "__COMPLETE__":
             buffer.sort(key=key)
             for buffered_item in buffer:
                 yield buffered_item
             buffer = []
+            flushed = True
         else:
             # item is T after checking != "__COMPLETE__"
             actual_item = cast(T, item)
-            if debouncer.is_complete:
+            if flushed:
                 yield actual_item
             else:
-                debouncer.extend_window()
+                # The window may already have closed while its completion marker
+                # is still behind this item in the merged stream; keep buffering
+                # until the burst has actually been flushed.
+                if not debouncer.is_complete:
+                    debouncer.extend_window()
                 buffer.append(actual_item)
 
 
